@@ -24,14 +24,14 @@ type MaskedTransformProtocol struct {
 // shared with the receiver and the temporary buffers are reallocated. The receiver and the returned
 // [MaskedTransformProtocol] can be used concurrently.
 func (rfp MaskedTransformProtocol) ShallowCopy() MaskedTransformProtocol {
-	params := rfp.e2s.params
+	paramsIn, paramsOut := rfp.e2s.params, rfp.s2e.params
 
 	return MaskedTransformProtocol{
 		e2s:         rfp.e2s.ShallowCopy(),
 		s2e:         rfp.s2e.ShallowCopy(),
-		tmpPt:       params.RingQ().NewPoly(),
-		tmpMask:     params.RingT().NewPoly(),
-		tmpMaskPerm: params.RingT().NewPoly(),
+		tmpPt:       paramsOut.RingQ().NewPoly(),
+		tmpMask:     paramsIn.RingT().NewPoly(),
+		tmpMaskPerm: paramsIn.RingT().NewPoly(),
 	}
 }
 
